@@ -601,7 +601,7 @@ class ExprBuilder:
         else:
             decl = None
             res = None
-        e = ("call", decl, res, args, (b, t["span"]["line"]), f)
+        e = ("call", decl, res, args, (b, t["span"]["line"], t["dest"]["ty"]), f)
         if self.inline:
             e2 = self.prog.inline_getter(e)
             if e2 is not None:
